@@ -217,7 +217,25 @@ def run_property(prop, modname, tier, seed, log=print):
                 if tm and tm.get("args") is not None and rec["verdict"] == "confirmed":
                     v = run_replay(prop, modname, c.name + "__instance", tm["args"], cond=c.name)
                     rec["real_instance"] = {"args": tm["args"], "stub": v.get("stub"), "real": v.get("real")}
-                    if v.get("real") == "fail" or v.get("stub") == "fail":
+                    if v.get("real") == "fail" and v.get("stub") == "fail" and v.get("reproduced"):
+                        # the instance fails when the real code is simply run on it - under the stubs and on the
+                        # real backends alike - although every symbolic path passed: the engine does not see this
+                        # behaviour (CrossHair by-passes functools.lru_cache, for one).  The failure is reproduced
+                        # on the real code, so it is reported as what it is.
+                        key = v.get("key")
+                        if key and key in findings:
+                            rec["verdict"] = "known-finding:" + key
+                            log("KNOWN-FINDING: property=%s %s (%s)" % (prop, key, findings[key].get("what", "")))
+                        else:
+                            rec["verdict"] = "violation (plain run of a solver-chosen instance; not visible symbolically)"
+                            rec["exhaustive"] = False
+                            violations += 1
+                            exit_code = max(exit_code, EXIT_VIOLATION)
+                            log("VIOLATION property=%s replay=%s" % (prop, v["path"]))
+                            log("  condition %s instance %s fails when run plainly on the real code (stubs and real "
+                                "backends agree) although all symbolic paths passed: %s"
+                                % (c.name, tm["args"], str(v.get("detail"))[:400]))
+                    elif v.get("real") == "fail" or v.get("stub") == "fail":
                         rec["verdict"] = "harness-error: passing instance fails on the real backends (%s)" % (
                             str(v.get("detail"))[:300])
                         rec["exhaustive"] = False
@@ -239,6 +257,19 @@ def run_property(prop, modname, tier, seed, log=print):
                                 exit_code = max(exit_code, EXIT_HARNESS)
                                 log("HARNESS-ERROR property=%s condition=%s: instance %s: stub %s / real %s: %s"
                                     % (prop, c.name, a2, v2.get("stub"), v2.get("real"), str(v2.get("detail"))[:300]))
+                            elif v2.get("real") == "fail" and v2.get("stub") == "fail" and v2.get("reproduced"):
+                                key = v2.get("key")
+                                if key and key in findings:
+                                    log("KNOWN-FINDING: property=%s %s (%s)" % (prop, key, findings[key].get("what", "")))
+                                    continue
+                                rec["verdict"] = "violation (plain run of a valid instance; not visible symbolically)"
+                                rec["exhaustive"] = False
+                                violations += 1
+                                exit_code = max(exit_code, EXIT_VIOLATION)
+                                log("VIOLATION property=%s replay=%s" % (prop, v2["path"]))
+                                log("  condition %s instance %s fails when run plainly on the real code (stubs and "
+                                    "real backends agree) although all symbolic paths passed: %s"
+                                    % (c.name, a2, str(v2.get("detail"))[:400]))
                             elif v2.get("real") == "ok":
                                 agree += 1
                         rec["real_instances_more"] = agree
